@@ -12,9 +12,11 @@ import (
 	"math/rand/v2"
 	"net"
 	"net/netip"
+	"runtime"
 	"strconv"
 	"strings"
 	"sync"
+	"sync/atomic"
 	"unicode/utf8"
 
 	"github.com/AdguardTeam/golibs/netutil"
@@ -28,6 +30,7 @@ func init() {
 	vh.Register("c04", "record", record)
 	vh.Register("c04", "probe", probe)
 	vh.Register("c04", "stress", stress)
+	vh.Register("c04", "coldstart", func(args []string) error { return RunCold(args, []string{"ip"}) })
 }
 
 // ------------------------------------------------------------ shared model
@@ -481,12 +484,19 @@ func replayAddrs(args []string) error {
 // ------------------------------------------------------------ replay: names
 
 func replayNames(args []string) error {
-	if len(args) != 2 {
-		return fmt.Errorf("usage: replay-names <vectors> <result>")
+	if len(args) != 2 && len(args) != 3 {
+		return fmt.Errorf("usage: replay-names <vectors> <result> [<cold-sample-out>]")
 	}
 	res, err := vh.NewResult(args[1])
 	if err != nil {
 		return err
+	}
+	var cold *ColdSampler
+	if len(args) == 3 {
+		if cold, err = NewColdSampler(args[2]); err != nil {
+			return err
+		}
+		defer cold.Close()
 	}
 	n, accepted := 0, 0
 	dd := vh.NewDedup()
@@ -509,6 +519,7 @@ func replayNames(args []string) error {
 		if dd.N()%20011 == 1 {
 			res.Sample(map[string]any{"name": s, "IPFromReversedAddr": v.IP.String()})
 		}
+		cold.Offer(v, s, raw)
 		CheckIP(res, s, v.IP)
 		return nil
 	})
@@ -1138,6 +1149,253 @@ func stress(args []string) error {
 		}
 	}
 	return res.Close(map[string]any{"stress_calls": calls, "stress_units": nu, "goroutines": ng, "iterations": iters})
+}
+
+// ------------------------------------------------------------ cold start
+
+// Cold start: lazily initialised package state is hidden state whose first-use
+// window exists once per process.  The replay commands leave a sample of name
+// vectors (and replay-addrs a sample of address vectors) with the
+// specification's predictions in files; `coldstart` is run MANY times by the
+// orchestrator, each time in a fresh process: it reads its inputs, calls
+// nothing of golibs, and releases N goroutines from one spinning barrier so
+// that the very first calls of the ARPA functions overlap.  Every result is
+// compared with the prediction after the run.
+
+// ColdSampler writes the cold-start sample of a replay-names run: valid and
+// invalid names of both families, the long (28..34 label) nibble names densely
+// because their parsing touches every per-character table.
+type ColdSampler struct {
+	tr                  *vh.Trace
+	nFull, nLong, nRest int
+}
+
+// isFullV6Shape reports whether s has the length and suffix of a complete
+// 32-nibble name (valid or with wrong characters): the shape whose decoding
+// walks every position.
+func isFullV6Shape(s string) bool {
+	t := strings.TrimSuffix(s, ".")
+	return len(t) == 72 && strings.HasSuffix(LowerASCII(t), ".ip6.arpa")
+}
+
+// NewColdSampler creates the sample file.
+func NewColdSampler(path string) (*ColdSampler, error) {
+	tr, err := vh.NewTrace(path)
+	if err != nil {
+		return nil, err
+	}
+	return &ColdSampler{tr: tr}, nil
+}
+
+// Offer considers one vector (only names whose domain validity the
+// specification itself decides, so that no golibs call is needed to predict).
+func (c *ColdSampler) Offer(v NameVec, s string, raw []byte) {
+	if c == nil || !v.ASCII || !v.Dom || len(s) > 253 {
+		return
+	}
+	if isFullV6Shape(s) {
+		if c.nFull++; c.nFull%2 == 0 && c.nFull < 3000 {
+			c.tr.Emit(json.RawMessage(raw))
+		}
+	} else if len(v.Name) >= 28 {
+		if c.nLong++; c.nLong%8 == 0 && c.nLong < 4000 {
+			c.tr.Emit(json.RawMessage(raw))
+		}
+	} else if c.nRest++; c.nRest%61 == 0 && c.nRest < 61*500 {
+		c.tr.Emit(json.RawMessage(raw))
+	}
+}
+
+// Close closes the sample file.
+func (c *ColdSampler) Close() error {
+	if c == nil {
+		return nil
+	}
+	return c.tr.Close()
+}
+
+type coldCall struct {
+	fn   string // IPToReversedAddr | IPFromReversedAddr | PrefixFromReversedAddr | ExtractReversedAddr
+	in   string
+	ip   []byte
+	want Res
+	name string // predicted name (encoder)
+	// observations
+	got     Res
+	gotName string
+	bad     string
+}
+
+// RunCold is the coldstart sub-command of c04 (fns = ["ip"]) and c05
+// (fns = ["pfx", "ext", "ip"]).
+func RunCold(args []string, fns []string) error {
+	if len(args) < 4 {
+		return fmt.Errorf("usage: coldstart <result> <run-index> <goroutines> <sample-files>...")
+	}
+	k, _ := strconv.Atoi(args[1])
+	ng, _ := strconv.Atoi(args[2])
+	if ng <= 0 {
+		return fmt.Errorf("bad goroutine count %q", args[2])
+	}
+	res, err := vh.NewResult(args[0])
+	if err != nil {
+		return err
+	}
+	var full, long, rest []NameVec
+	var addrs []addrVec
+	for _, path := range args[3:] {
+		err = vh.ForEachVector(path, func(_ int, raw []byte) error {
+			var probe struct {
+				IP   json.RawMessage `json:"ip"`
+				Vars []addrVar       `json:"vars"`
+			}
+			if err := json.Unmarshal(raw, &probe); err != nil {
+				return err
+			}
+			if len(probe.Vars) > 0 {
+				var a addrVec
+				if err := json.Unmarshal(raw, &a); err != nil {
+					return err
+				}
+				addrs = append(addrs, a)
+				return nil
+			}
+			var v NameVec
+			if err := json.Unmarshal(raw, &v); err != nil {
+				return err
+			}
+			switch {
+			case isFullV6Shape(Concretise(v.Name)):
+				full = append(full, v)
+			case len(v.Name) >= 28:
+				long = append(long, v)
+			default:
+				rest = append(rest, v)
+			}
+			return nil
+		})
+		if err != nil {
+			return err
+		}
+	}
+	if len(full) == 0 {
+		full = long
+	}
+	if len(full)+len(long)+len(rest) == 0 {
+		return fmt.Errorf("empty cold-start sample")
+	}
+	nameCalls := func(v NameVec) (out []*coldCall) {
+		s := Concretise(v.Name)
+		for _, fn := range fns {
+			switch fn {
+			case "ip":
+				out = append(out, &coldCall{fn: "IPFromReversedAddr", in: s, want: v.IP})
+			case "pfx":
+				out = append(out, &coldCall{fn: "PrefixFromReversedAddr", in: s, want: v.Pfx})
+			case "ext":
+				out = append(out, &coldCall{fn: "ExtractReversedAddr", in: s, want: v.Ext})
+			}
+		}
+		return out
+	}
+	pick := func(list []NameVec, i int) []*coldCall {
+		if len(list) == 0 {
+			return nil
+		}
+		return nameCalls(list[((i%len(list))+len(list))%len(list)])
+	}
+	plans := make([][]*coldCall, ng)
+	for g := 0; g < ng; g++ {
+		base := (k*ng + g) * 5
+		var plan []*coldCall
+		// Most goroutines start with a name of the complete-IPv6 shape (valid
+		// or with wrong characters), some with another name or the encoder.
+		first := (k + g) % 8
+		if first == 1 {
+			plan = append(plan, pick(rest, base)...)
+		}
+		if first == 2 && len(addrs) > 0 {
+			a := addrs[base%len(addrs)]
+			plan = append(plan, &coldCall{fn: "IPToReversedAddr", ip: []byte(ipOf(a.IP)), name: a.Name})
+		}
+		for j := 0; j < 3; j++ {
+			plan = append(plan, pick(full, base+j)...)
+			plan = append(plan, pick(long, base+j)...)
+			plan = append(plan, pick(rest, base+j+1)...)
+		}
+		if len(addrs) > 0 {
+			a := addrs[(base+1)%len(addrs)]
+			plan = append(plan, &coldCall{fn: "IPToReversedAddr", ip: []byte(ipOf(a.IP)), name: a.Name})
+			for _, va := range a.Vars[:3] {
+				plan = append(plan, &coldCall{fn: "IPFromReversedAddr", in: va.S, want: va.R})
+			}
+		}
+		plans[g] = plan
+	}
+	var ready atomic.Int32
+	var goFlag atomic.Bool
+	var wg sync.WaitGroup
+	for g := 0; g < ng; g++ {
+		wg.Add(1)
+		go func(plan []*coldCall) {
+			defer wg.Done()
+			ready.Add(1)
+			for !goFlag.Load() {
+			}
+			for _, c := range plan {
+				pv, p := vh.Try(func() {
+					switch c.fn {
+					case "IPToReversedAddr":
+						var err error
+						c.gotName, err = netutil.IPToReversedAddr(net.IP(c.ip))
+						if err != nil {
+							c.bad = "error: " + err.Error()
+						}
+					case "IPFromReversedAddr":
+						a, err := netutil.IPFromReversedAddr(c.in)
+						c.got = ResOfAddr(a, err)
+					case "PrefixFromReversedAddr":
+						pr, err := netutil.PrefixFromReversedAddr(c.in)
+						c.got = ResOfPrefix(pr, err)
+					default:
+						pr, err := netutil.ExtractReversedAddr(c.in)
+						c.got = ResOfPrefix(pr, err)
+					}
+				})
+				if p {
+					c.bad = fmt.Sprintf("panic: %v", pv)
+				}
+			}
+		}(plans[g])
+	}
+	for int(ready.Load()) < ng {
+		runtime.Gosched()
+	}
+	goFlag.Store(true)
+	wg.Wait()
+	calls := 0
+	for g, plan := range plans {
+		for i, c := range plan {
+			calls++
+			key, what := "", ""
+			switch {
+			case c.fn == "IPToReversedAddr":
+				key = fmt.Sprintf("cold start: IPToReversedAddr(%v)", c.ip)
+				if c.bad != "" || c.gotName != c.name {
+					what = fmt.Sprintf("returned %q %s; the specification predicts %q", c.gotName, c.bad, c.name)
+				}
+			default:
+				key = "cold start: " + Key(c.fn, c.in)
+				if c.bad != "" || !c.got.Equal(c.want) {
+					what = fmt.Sprintf("returned %v %s; the specification predicts %v", c.got, c.bad, c.want)
+				}
+			}
+			if what != "" {
+				res.Mismatch(key, what+fmt.Sprintf(" (call %d of goroutine %d of %d released together as the first ARPA calls of a fresh process)", i+1, g+1, ng), nil)
+			}
+		}
+	}
+	return res.Close(map[string]any{"cold_calls": calls})
 }
 
 // ------------------------------------------------------------ probe (--replay)
